@@ -161,6 +161,7 @@ def _query(rng: Any, n_rows: int, dict_cursor: bool, hz: dict[str, bool]) -> dic
 
 def gen(rng: Any, prop: str, tier: str) -> dict[str, Any]:
     hz = {h: rng.random() < 0.08 for h in HAZARDS_C05 + HAZARDS_C06}
+    hz["_nop"] = rng.random() < 0.3  # not a hazard: the instance is configured with nop_regexes
     n_rows = rng.choice([0, 1, 2, 5, 8, 12])
     rows = _rows(rng, n_rows)
     two = rng.random() < 0.6
@@ -250,7 +251,7 @@ def gen(rng: Any, prop: str, tier: str) -> dict[str, Any]:
             else:
                 ops.append({"s": "b", "cur": 1, "dict": False, "k": "foreign", "sql": rng.choice([
                     f"CREATE OR REPLACE TABLE {DB}.{SC}.OTHER (X INT)", f"INSERT INTO {DB}.{SC}.SIDE VALUES ({rng.randint(1, 9)})"])})
-    return {"profile": NAME, "config": {"hazards": hz, "rows": rows, "two": two, "paramstyle": paramstyle}, "strategy": "serial", "ops": ops}
+    return {"profile": NAME, "config": {"hazards": hz, "rows": rows, "two": two, "paramstyle": paramstyle, "nop": hz.get("_nop", False)}, "strategy": "serial", "ops": ops}
 
 
 def _nonquery(rng: Any, hz: dict[str, bool], in_txn: bool = False, any_txn: bool = False) -> dict[str, Any]:
@@ -261,6 +262,9 @@ def _nonquery(rng: Any, hz: dict[str, bool], in_txn: bool = False, any_txn: bool
         {"sql": f"DELETE FROM {DB}.{SC}.SIDE WHERE X = {rng.randint(100, 200)}", "cols": ["number of rows deleted"], "kind": "delete"},
         {"sql": f"CREATE OR REPLACE TABLE {DB}.{SC}.TMP{rng.randint(1, 3)} (A INT)", "cols": ["status"], "kind": "create_table"},
         {"sql": "SET MYVAR = 5", "cols": ["status"], "kind": "set"},
+        {"sql": f"COMMENT ON TABLE {DB}.{SC}.SIDE IS 'c{rng.randint(1, 9)}'", "cols": ["status"], "kind": "comment_on"},
+        {"sql": f"ALTER TABLE {DB}.{SC}.SIDE SET COMMENT = 'a{rng.randint(1, 9)}'", "cols": ["status"], "kind": "set_comment"},
+        {"sql": f"ALTER TABLE {DB}.{SC}.SIDE CLUSTER BY (X)", "cols": ["status"], "kind": "cluster_by"},
         {"sql": f"DESCRIBE TABLE {DB}.{SC}.SIDE", "cols": None, "kind": "describe_table"},
     ]
     if True:
@@ -277,10 +281,13 @@ def _nonquery(rng: Any, hz: dict[str, bool], in_txn: bool = False, any_txn: bool
         pool.append({"sql": "SELECT RANDOM(42) AS R", "cols": ["R"], "kind": "random"})
     if True:
         pool += [{"sql": f"SHOW TABLES IN SCHEMA {DB}.{SC}", "cols": None, "kind": "show"}, {"sql": "SHOW SCHEMAS", "cols": None, "kind": "show"}]
+    if hz.get("_nop"):
+        # the instance no-ops CALL statements (nop_regexes): a no-op'd statement has the status row as its result
+        pool += [{"sql": f"CALL PROC{rng.randint(1, 3)}()", "cols": ["status"], "kind": "nop"}] * 3
     if any_txn:
         # DDL next to an open transaction of any session could be a write-write conflict: outside the properties
         # (a MERGE inside the session's own transaction: known finding, description after ROLLBACK re-reads the helper table)
-        pool = [x for x in pool if x["kind"] not in ("create_table", "truncate") and (x["kind"] != "merge" or not in_txn or hz["desc_merge_in_txn"])]
+        pool = [x for x in pool if x["kind"] not in ("create_table", "truncate", "comment_on", "set_comment", "cluster_by") and (x["kind"] != "merge" or not in_txn or hz["desc_merge_in_txn"])]
     return rng.choice(pool)
 
 
@@ -316,7 +323,7 @@ class Machine:
     def __init__(self, case: dict[str, Any], sim: core.Sim) -> None:
         self.case = case
         self.sim = sim
-        self.world = World(sim)
+        self.world = World(sim, nop_regexes=[r"^CALL\b"]) if self.case["config"].get("nop") else World(sim)
         self.violation: dict[str, Any] | None = None
         self.probes: dict[str, int] = {}
         self.state: dict[tuple[str, int], dict[str, Any]] = {}
@@ -545,6 +552,23 @@ class Machine:
             self.flag("C05", f"fetch-count/status-row/{k}", "the status row of a statement is handed out exactly once", {**brief, "statement": st["sql"], "expected": want_n, "observed": len(got), "already_handed_out": idx})
             return
         st["idx"] = min(1, idx + size)
+        if got and st.get("cols"):
+            # C06: the row must be the one its description (checked against st["cols"] when description is read) describes
+            row = got[0]
+            names = list(row.keys()) if isinstance(row, dict) else None
+            vals = list(row.values()) if isinstance(row, dict) else list(row)
+            kind = st["kind"]
+            if names is not None and names != st["cols"]:
+                self.flag("C06", f"status-row-names/{kind}", "the keys of the status row must be the described column names", {**brief, "statement": st["sql"], "expected": st["cols"], "observed": names})
+            elif len(vals) != len(st["cols"]):
+                self.flag("C06", f"status-row-width/{kind}", "the status row must have one value per described column", {**brief, "statement": st["sql"], "expected": st["cols"], "observed": repr(vals)[:120]})
+            else:
+                for c, v in zip(st["cols"], vals):
+                    want = str if c == "status" else int if c.startswith("number of") else None
+                    if want is not None and (type(v) is not want):
+                        self.flag("C06", f"status-row-type/{kind}", "the value of a status row must be of the described type (status: TEXT, counts: FIXED)",
+                                  {**brief, "statement": st["sql"], "column": c, "observed": repr(v)[:80], "class": type(v).__name__})
+                        break
 
     # ---- C06
     def description(self, op: dict[str, Any], cur: Any, st: dict[str, Any] | None, brief: dict[str, Any]) -> None:
